@@ -142,7 +142,7 @@ def pipeline(env, **cfg):
         env.holds("C09", "no branch of the compressible chain depends on the Mach number (results vary continuously with Mach below 1)", not bad, str(bad))
 
 
-@job("c09.mach0", ("C09",), cfgs=[dict(nx=2, ny=2, symmetry=True, side="left", nsurf=1), dict(nx=2, ny=2, symmetry=False, nsurf=1, _tier=T)], ranges=RG9, cost=60)
+@job("c09.mach0", ("C09",), cfgs=[dict(nx=2, ny=2, symmetry=True, side="left", nsurf=1, _tier=T), dict(nx=2, ny=2, symmetry=False, nsurf=1, _tier=T)], ranges=RG9, cost=60)
 def mach0(env, **cfg):
     """at Mach 0 and zero sideslip the compressible and the incompressible solvers coincide (vortex kernel with its full
     real body; clause on the branch where the kernel's tolerance mask is inactive)"""
